@@ -3,6 +3,11 @@ INVARIANT Inv
 CONSTANTS
   Bs = 4
   AddBackWraps = TRUE
+  KarThr = 2
+  BasicSqrThr = 2
+  KarSqrThr = 2
+  DivRecThr = 100
+  LowBlockAtB = FALSE
   ULen = 5
   VLen = 3
 CHECK_DEADLOCK FALSE
